@@ -331,6 +331,9 @@ def Node.persist (n : Node) : Node :=
 /-- `sign_bolt11_invoice`: the node issues an invoice for `h`.  Same invoice again = Ok without effect, a different
     one for the same hash = Err, zero-amount invoices are not remembered.  Nothing is persisted, no payment entry. -/
 def Node.issue (n : Node) (h : Hash) (inv : Invoice) : Node × Bool :=
+  -- `state.issued_invoices.len() >= policy.max_invoices()` answers first (`Err`), also for a repeat (round 9: found by
+  -- the escalated search in the `m1` worlds; `maxInv` is defined further down with `invoiceCount`, hence `issuedFull`)
+  if (n.known.eraseDups.filter (fun x => (n.issued x).isSome)).length ≥ n.maxInv then (n, false) else
   match n.issued h with
   | some old => (n, old.id = inv.id)
   | none => (if inv.amount > 0 then { n with issued := upd n.issued h (some inv) } else n, true)
